@@ -56,6 +56,7 @@ def _install():
         return
     _STATE["registry"] = common.isolate_locks()
     _STATE["prefixes"] = threadsim.trace_prefixes_for(core.repo_dir())
+    _STATE["prefixes_all"] = threadsim.trace_prefixes_for(core.repo_dir(), subdirs=("permuta",))
     _STATE["installed"] = True
 
 
@@ -80,7 +81,10 @@ def _nmax(ref, hard, cap):
 
 def gen_case(rng, tier):
     lim = _limits(tier)
-    if rng.random() < 0.04:
+    deep = rng.random() < 0.08
+    if deep:
+        lim = dict(lim, cap=max(20, lim["cap"] // 4))
+    elif rng.random() < 0.04:
         lim = _limits("thorough")  # swarm: a few runs on deeper levels / larger classes
     mesh = rng.random() < 0.3
     if mesh:
@@ -141,6 +145,10 @@ def gen_case(rng, tier):
         "schedule": sched, "nmax": nmax, "ref_max": ref_max,
         # > 25x the longest run observed on the unchanged tree in this tier
         "max_steps": 1_500_000 if tier == "quick" else 6_000_000,
+        # swarm: a few runs pre-empt inside every permuta module (callees of the level builder
+        # included: Perm.insert / remove / avoids, pattern search, basis construction), not only
+        # inside permuta/perm_sets
+        "trace": "all" if deep else "perm_sets",
     }
 
 
@@ -185,6 +193,9 @@ def execute(case):
     ref = common.to_ref(case["basis"])
     ref_max = case["ref_max"]
     pm.Av.clear_cache()
+    cc = getattr(getattr(pm.Perm, "_to_standard", None), "cache_clear", None)
+    if cc is not None:
+        cc()  # with deep tracing the step count must not depend on what earlier runs memoised
     for lock in _STATE["registry"]:
         lock._reset()  # pylint: disable=protected-access
     del _STATE["registry"][64:]
@@ -206,18 +217,28 @@ def execute(case):
         out.probe("mesh_basis")
 
     policy = _make_policy(case["schedule"], len(case["threads"]))
-    sched = threadsim.Sched(policy, _STATE["prefixes"], log, max_steps=case.get("max_steps", 4_000_000))
+    deep = case.get("trace") == "all"
+    prefixes = _STATE["prefixes_all"] if deep else _STATE["prefixes"]
+    sched = threadsim.Sched(policy, prefixes, log, max_steps=case.get("max_steps", 4_000_000) * (8 if deep else 1))
+    if deep:
+        out.probe("deep_tracing")
     responses = {}
 
     def make_fn(tdesc):
         def fn(tid):
             sched.yp(tid, "start")
-            if tdesc["handle"] == "own":
-                av = common.mk_av(case["basis"], tdesc["form"], tdesc["salt"])
-            else:
-                av = shared
             res = []
             responses[tid] = res
+            if tdesc["handle"] == "own":
+                try:
+                    av = common.mk_av(case["basis"], tdesc["form"], tdesc["salt"])
+                except Exception as exc:  # pylint: disable=broad-except
+                    # constructing the class failed inside the library: every query of this
+                    # thread is answered by that exception
+                    res.extend([["exc", type(exc).__name__, f"while constructing Av: {exc}"[:200]] for _ in tdesc["ops"]])
+                    return
+            else:
+                av = shared
             live = {"it": None, "op": None, "items": [], "done": False}
             for j, op in enumerate(tdesc["ops"]):
                 if op["op"] == "clear_cache":
